@@ -2,6 +2,7 @@
 
 Real code under contract (prqlc/prqlc/src/parser.rs):
   parse: from `let mut errors = Vec::new();` to the end of the function (slice: the loop over the source files and the result)
+  parse_source (whole function)
   struct SourceFile
 """
 import re
@@ -12,8 +13,8 @@ from extract import ExtractionError
 
 PARSER = "prqlc/prqlc/src/parser.rs"
 
-LABELS = ["PF1", "PF1i", "PF2"]
-FUNCTIONS = ["parse_files"]
+LABELS = ["PF1", "PF1i", "PF2", "PS2", "PS3"]
+FUNCTIONS = ["parse_files", "parse_source_real"]
 RLIMIT = 60
 
 ASSUMED = [
@@ -23,7 +24,7 @@ ASSUMED = [
              "`ids.get(&path).map(|x| **x).expect(..)` is the uninterpreted id_of(ids, path) (HashMap lookup in the reversed source_ids map; a missing path panics); "
              "insert_stmts_at_path changes the root module only; Vec::extend with a vector appends its elements in order; Errors is the tuple struct Errors(Vec<Error>); "
              "pr::ModuleDef is the skeleton {name, stmts}; Path is opaque",
-     "keys": ["fn parse_source", "spec fn parsed", "fn ids_get", "spec fn id_of", "fn insert_stmts_at_path", "fn vec_extend", "struct Errors", "struct ModuleDef", "struct Stmt", "struct Path", "struct IdMap"]},
+     "keys": ["fn lex_source_recovery", "spec fn lexed", "fn parse_lr_to_pr", "spec fn parsed_tokens", "struct Token", "fn unwrap_or_default_stmts", "fn parse_source", "spec fn parsed", "fn ids_get", "spec fn id_of", "fn insert_stmts_at_path", "fn vec_extend", "struct Errors", "struct ModuleDef", "struct Stmt", "struct Path", "struct IdMap"]},
 ]
 TRUSTED = [
     "oracle (C13, several files): the span of an error carries the id it was parsed with, and the renderer looks the id up in source_ids to name the file and to quote the line: so every "
@@ -48,6 +49,13 @@ pub uninterp spec fn id_of(ids: IdMap, path: Path) -> u16;
 #[verifier::external_body] pub fn parse_source(source: &str, source_id: u16) -> (r: Result<Vec<pr::Stmt>, Vec<Error>>) ensures r == parsed(source@, source_id), { unimplemented!() }
 #[verifier::external_body] pub fn ids_get(ids: &IdMap, path: &Path) -> (r: u16) ensures r == id_of(*ids, *path), { unimplemented!() }
 #[verifier::external_body] pub fn insert_stmts_at_path(module: &mut pr::ModuleDef, path: Vec<String>, stmts: Vec<pr::Stmt>) { unimplemented!() }
+// parse_source itself: the lexer and the parser of prqlc-parser are external (uninterpreted results)
+#[verifier::external_body] pub struct Token { _p: u8 }
+pub uninterp spec fn lexed(source: Seq<char>, id: u16) -> (Option<Vec<Token>>, Vec<Error>);
+pub uninterp spec fn parsed_tokens(id: u16, tokens: Vec<Token>) -> (Option<Vec<Stmt>>, Vec<Error>);
+#[verifier::external_body] pub fn lex_source_recovery(source: &str, source_id: u16) -> (r: (Option<Vec<Token>>, Vec<Error>)) ensures r == lexed(source@, source_id), { unimplemented!() }
+#[verifier::external_body] pub fn parse_lr_to_pr(source_id: u16, tokens: Vec<Token>) -> (r: (Option<Vec<Stmt>>, Vec<Error>)) ensures r == parsed_tokens(source_id, tokens), { unimplemented!() }
+#[verifier::external_body] pub fn unwrap_or_default_stmts(o: Option<Vec<Stmt>>) -> (r: Vec<Stmt>) ensures o is Some ==> r == o->0, o is None ==> r@.len() == 0, { unimplemented!() }
 #[verifier::external_body] pub fn vec_extend<T>(v: &mut Vec<T>, o: Vec<T>) ensures final(v)@ == old(v)@ + o@, { unimplemented!() }
 spec fn file_errs(f: SourceFile, ids: IdMap) -> Seq<Error> {
     match parsed(f.content@, id_of(ids, *f.file_path)) { Ok(_) => Seq::empty(), Err(e) => e@ }
@@ -93,4 +101,22 @@ def build(X):
         ensures %(it)s.pos() >= %(it)s.all().len(),
         decreases %(it)s.all().len() - %(it)s.pos(),
     """ % {"it": it})
-    return PRELUDE + st.text + "\n" + f.text + "\n} // verus!\nfn main() {}\n"
+    # ---- parse_source (whole function): the errors of ONE file
+    ps = X.fn(PARSER, "parse_source")
+    ps.rewrite_re("R1", r"//[^\n]*\n", "\n", count=None, why="comments")
+    ps.rewrite_re("R1", r"debug::log_entry\(\|\| debug::DebugEntryKind::ReprLr\(lr::Tokens\(tokens\.clone\(\)\)\)\);", "", count=None, why="debug log")
+    ps.rewrite_re("R5", r"\bprqlc_parser::lexer::lex_source_recovery\(", "lex_source_recovery(", count=None, why="external: the lexer")
+    ps.rewrite_re("R5", r"\bprqlc_parser::parser::parse_lr_to_pr\(", "parse_lr_to_pr(", count=None, why="external: the parser")
+    ps.rewrite_re("R5", r"\berrors\.extend\((\w+)\)", r"vec_extend(&mut errors, \1)", count=None, why="Vec::extend with a vector: append")
+    ps.rewrite_re("R5", r"\bast\.unwrap_or_default\(\)", "unwrap_or_default_stmts(ast)", count=None, why="Option::unwrap_or_default on a Vec")
+    ps.rewrite_re("R3", r"pub\(crate\) fn parse_source\(", "pub fn parse_source_real(", count=1, why="renamed: parse_source is the shim the loop of parse uses")
+    ps.name = "parse_source_real"
+    ps.ret_name("r")
+    ps.contract("""
+        ensures
+            // C13: the parser is run on the lexer's tokens under the SAME source id, and the errors of the file are the lexer's followed by the parser's
+            (lexed(source@, source_id).0 is Some) ==> (match r { Err(e) => e@ == lexed(source@, source_id).1@ + parsed_tokens(source_id, lexed(source@, source_id).0->0).1@ && e@.len() > 0,
+                Ok(_) => lexed(source@, source_id).1@.len() == 0 && parsed_tokens(source_id, lexed(source@, source_id).0->0).1@.len() == 0 }), // @PS2
+            (lexed(source@, source_id).0 is None) ==> (match r { Err(e) => e@ == lexed(source@, source_id).1@ && e@.len() > 0, Ok(st) => lexed(source@, source_id).1@.len() == 0 && st@.len() == 0 }), // @PS3
+    """)
+    return PRELUDE + st.text + "\n" + f.text + "\n" + ps.text + "\n} // verus!\nfn main() {}\n"
